@@ -134,20 +134,31 @@ Theorem decode_consumes : forall widen32 s fuel buf v rest,
   decode widen32 fuel s buf = DOk v rest -> (length rest + min_width s <= length buf)%nat.
 Proof. exact ExhaustProofs.decode_consumes. Qed.
 
+(* for the repaired code: under every schema MetadataSchema() accepts, decode_row terminates *)
+Theorem decode_terminates_accepted : forall widen32 t, construct t = CAccept ->
+  forall fuel buf, (length buf < fuel)%nat -> decode_top widen32 fuel (modify_top t) buf <> DFuel.
+Proof. exact ExhaustProofs.accepted_decode_terminates. Qed.
+
 Theorem decode_terminates : forall widen32 s, zw_free s = true ->
   forall fuel buf, (length buf < fuel)%nat -> decode widen32 fuel s buf <> DFuel.
 Proof. exact ExhaustProofs.decode_terminates. Qed.
 
-(* ---- findings: the property is false for the code that exists ---- *)
-Theorem exhaust_zero_width_diverges_refuted : exists (t : top) (v : value),
+(* ---- findings ---- *)
+(* historical records: what was false at the pinned commit 380c75d (construct_pinned is its
+   constructor); the current constructor refuses these schemas *)
+Theorem exhaust_zero_width_diverges_pinned_refuted : exists (t0 : top) (v : value),
+  let t := modify_top t0 in
+  construct_pinned t0 = CAccept /\ construct t0 = CSchemaErr /\
   validate_and_encode round32_impl t v = EOk [] /\
   forall fuel buf, decode_top widen32_impl fuel t buf = DFuel.
-Proof. exact ExhaustProofs.exhaust_zero_width_diverges_refuted. Qed.
+Proof. exact ExhaustProofs.exhaust_zero_width_diverges_pinned_refuted. Qed.
 
-Theorem exhaust_nontail_refuted : exists (t : top) (v : value) (bs : list Z),
+Theorem exhaust_nontail_pinned_refuted : exists (t0 : top) (v : value) (bs : list Z),
+  let t := modify_top t0 in
+  construct_pinned t0 = CAccept /\ construct t0 = CSchemaErr /\
   validate_and_encode round32_impl t v = EOk bs /\
   forall fuel, decode_top widen32_impl fuel t bs <> DOk (norm_top round32_impl widen32_impl t v) [].
-Proof. exact ExhaustProofs.exhaust_nontail_refuted. Qed.
+Proof. exact ExhaustProofs.exhaust_nontail_pinned_refuted. Qed.
 
 Theorem object_or_null_empty_refuted : exists (t : top) (v : value),
   rt_ok (t_schema t) = true /\ shape_ok (t_schema t) = true /\
@@ -165,7 +176,8 @@ Theorem nested_validators_skipped_refuted :
      exists p q, t_schema t = SObj None [p] /\ snd p = SObj None [q] /\ neg_length (snd q) = true).
 Proof. exact ValidProofs.nested_validators_skipped_refuted. Qed.
 
-Theorem nested_keyerror_substitutes_default_refuted :
+(* F9k, historical: under the pinned value of the regenerated fact (try/except in object_encode) *)
+Theorem nested_keyerror_substitutes_default_pinned_refuted :
   c12_encode_swallows_nested_keyerror = true ->
   let v := VObj [([111], VObj [([98], VInt 1)])] in
   construct subst_schema = CAccept /\
@@ -173,7 +185,13 @@ Theorem nested_keyerror_substitutes_default_refuted :
   validate_and_encode round32_impl (modify_top subst_schema) v = EOk [5; 0; 0; 0; 6; 0; 0; 0] /\
   decode_top widen32_impl 0 (modify_top subst_schema) [5; 0; 0; 0; 6; 0; 0; 0] =
     DOk (VObj [([111], VObj [([97], VInt 5); ([98], VInt 6)])]) [].
-Proof. exact ValidProofs.nested_keyerror_substitutes_default_refuted. Qed.
+Proof. exact ValidProofs.nested_keyerror_substitutes_default_pinned_refuted. Qed.
+
+(* ... and the repaired code propagates the nested KeyError *)
+Theorem nested_keyerror_propagates :
+  c12_encode_swallows_nested_keyerror = false ->
+  validate_and_encode round32_impl (modify_top subst_schema) (VObj [([111], VObj [([98], VInt 1)])]) = EErr EKey.
+Proof. exact ValidProofs.nested_keyerror_propagates. Qed.
 
 (* ---- (e) rejection ---- *)
 Theorem invalid_rejected : forall round32 t v,
@@ -200,7 +218,7 @@ Proof. exact element_invalid. Qed.
 Theorem schema_top_level_rules : forall t req ps,
   construct t = CAccept -> t_schema t = SObj (Some req) ps ->
   forall p, In p ps ->
-    leaf_needs_format (snd p) = false /\ neg_length (snd p) = false /\
+    leaf_needs_format (snd p) = false /\ null_nonpad (snd p) = false /\ neg_length (snd p) = false /\
     (key_in (pkey p) req = true \/ p_default (snd (fst p)) <> None).
 Proof. exact construct_accept_top_rules. Qed.
 
